@@ -45,10 +45,19 @@ impl ServerCfg {
         let Some(prev) = &self.prev else { return self.build_with(&self.resp); };
         // start with the previous configuration, then reconfigure over the server's own handler
         let server = tokio::sync::Mutex::new(self.build_with(prev));
+        let body = self.reconf_json();
+        let req = hyper::Request::builder().method("POST").uri("/set_responses_by_appid").body(hyper::Body::from(body)).unwrap();
+        let r = block_on(mock_omaha_server::handle_request(req, &server)).expect("set_responses");
+        assert_eq!(r.status(), http::StatusCode::OK);
+        server.into_inner()
+    }
+    /// The body of the `/set_responses_by_appid` request that configures `resp`.
+    pub fn reconf_json(&self) -> Vec<u8> { Self::json_of(&self.resp) }
+    pub fn json_of(resp: &[RespEntry]) -> Vec<u8> {
         let kind_name = |k: &OmahaResponse| match k { OmahaResponse::NoUpdate => "NoUpdate", OmahaResponse::Update => "Update", OmahaResponse::UrgentUpdate => "UrgentUpdate",
             OmahaResponse::InvalidResponse => "InvalidResponse", OmahaResponse::InvalidURL => "InvalidURL" };
         // absent assertions are left out of the JSON (as a hand-written configuration would), not written as null
-        let body: serde_json::Map<String, serde_json::Value> = self.resp.iter().map(|(id, _, k, ad, ver, coh, cb, pkg)| {
+        let body: serde_json::Map<String, serde_json::Value> = resp.iter().map(|(id, _, k, ad, ver, coh, cb, pkg)| {
             let mut m = serde_json::Map::new();
             m.insert("response".into(), kind_name(k).into());
             m.insert("check_assertion".into(), (if *ad { "UpdatesDisabled" } else { "UpdatesEnabled" }).into());
@@ -58,12 +67,9 @@ impl ServerCfg {
             m.insert("package_name".into(), pkg.clone().into());
             (id.clone(), serde_json::Value::Object(m))
         }).collect();
-        let req = hyper::Request::builder().method("POST").uri("/set_responses_by_appid").body(hyper::Body::from(serde_json::to_vec(&body).unwrap())).unwrap();
-        let r = block_on(mock_omaha_server::handle_request(req, &server)).expect("set_responses");
-        assert_eq!(r.status(), http::StatusCode::OK);
-        server.into_inner()
+        serde_json::to_vec(&body).unwrap()
     }
-    fn build_with(&self, resp: &[RespEntry]) -> OmahaServer {
+    pub fn build_with(&self, resp: &[RespEntry]) -> OmahaServer {
         let map: HashMap<String, ResponseAndMetadata> = resp.iter().map(|(id, _, k, ad, ver, coh, cb, pkg)| (id.clone(), ResponseAndMetadata {
             response: *k, check_assertion: if *ad { UpdateCheckAssertion::UpdatesDisabled } else { UpdateCheckAssertion::UpdatesEnabled },
             version: ver.clone(), cohort_assertion: coh.clone(), codebase: cb.clone(), package_name: pkg.clone() })).collect();
@@ -78,6 +84,57 @@ impl ServerCfg {
             self.latest.0, self.latest.1, if self.hist.is_empty() { "-".into() } else { self.hist.iter().map(|(i, k)| format!("{}/{}", i, k)).collect::<Vec<_>>().join(",") },
             opt_hex(&self.etag_override), self.require_cup as u8)
     }
+}
+
+/// One request over a real TCP connection to the server started with `OmahaServer::start`: the connection is opened and
+/// used (a reconfiguration to the server's *previous* responses, which changes nothing) before the server is reconfigured to
+/// its final responses over a second connection; the case's request then goes out on the first, kept-alive connection.
+/// Returns (status, ETag, body), or None when the server closed the connection without an answer (a panic in the handler).
+pub fn tcp_exchange(cfg: &ServerCfg, origin: &str, req_body: &[u8]) -> Result<Option<(u16, Option<Vec<u8>>, Vec<u8>)>, String> {
+    use tokio::io::{AsyncReadExt, AsyncWriteExt};
+    let prev = cfg.prev.clone().ok_or("no previous configuration")?;
+    let rt = tokio::runtime::Builder::new_current_thread().enable_all().build().map_err(|e| e.to_string())?;
+    rt.block_on(async {
+        let arc = std::sync::Arc::new(tokio::sync::Mutex::new(cfg.build_with(&prev)));
+        let (addr, _task) = OmahaServer::start(arc.clone(), None).await.map_err(|e| e.to_string())?;
+        let hostport = addr.trim_start_matches("http://").trim_end_matches('/').to_string();
+        async fn roundtrip(conn: &mut tokio::net::TcpStream, path: &str, body: &[u8]) -> Result<Option<(u16, Option<Vec<u8>>, Vec<u8>)>, String> {
+            let head = format!("POST {} HTTP/1.1\r\nHost: mock\r\nContent-Type: application/json\r\nContent-Length: {}\r\n\r\n", path, body.len());
+            conn.write_all(head.as_bytes()).await.map_err(|e| e.to_string())?;
+            conn.write_all(body).await.map_err(|e| e.to_string())?;
+            let mut buf: Vec<u8> = vec![];
+            let mut tmp = [0u8; 4096];
+            loop {
+                if let Some(p) = buf.windows(4).position(|w| w == b"\r\n\r\n") {
+                    let head = String::from_utf8_lossy(&buf[..p]).to_string();
+                    let status: u16 = head.split(' ').nth(1).and_then(|x| x.parse().ok()).ok_or("bad status line")?;
+                    let mut etag = None; let mut clen = 0usize;
+                    for l in head.split("\r\n").skip(1) {
+                        if let Some((k, v)) = l.split_once(':') {
+                            if k.eq_ignore_ascii_case("etag") { etag = Some(v.trim_start().as_bytes().to_vec()); }
+                            if k.eq_ignore_ascii_case("content-length") { clen = v.trim().parse().map_err(|_| "bad content-length")?; }
+                        }
+                    }
+                    while buf.len() < p + 4 + clen {
+                        let n = conn.read(&mut tmp).await.map_err(|e| e.to_string())?;
+                        if n == 0 { return Ok(None); }
+                        buf.extend_from_slice(&tmp[..n]);
+                    }
+                    return Ok(Some((status, etag, buf[p + 4..p + 4 + clen].to_vec())));
+                }
+                let n = match conn.read(&mut tmp).await { Ok(n) => n, Err(_) => return Ok(None) };
+                if n == 0 { return Ok(None); }
+                buf.extend_from_slice(&tmp[..n]);
+            }
+        }
+        let mut c1 = tokio::net::TcpStream::connect(&hostport).await.map_err(|e| e.to_string())?;
+        let warm = roundtrip(&mut c1, "/set_responses_by_appid", &ServerCfg::json_of(&prev)).await?;
+        if warm.map(|w| w.0) != Some(200) { return Err("warm-up request failed".into()); }
+        let mut c2 = tokio::net::TcpStream::connect(&hostport).await.map_err(|e| e.to_string())?;
+        let rc = roundtrip(&mut c2, "/set_responses_by_appid", &cfg.reconf_json()).await?;
+        if rc.map(|w| w.0) != Some(200) { return Err("reconfiguration failed".into()); }
+        roundtrip(&mut c1, origin, req_body).await
+    })
 }
 
 pub fn gen_server(rng: &mut Rng, ids: &[String], versions: &[String]) -> ServerCfg {
@@ -198,7 +255,25 @@ pub fn run(o: &Opts, rng: &mut Rng) -> Sink {
             }
         }
         sink.bump(&format!("result:{}", output.split(' ').next().unwrap()));
+        // the same exchange over a real, kept-alive TCP connection to `OmahaServer::start` (client part left out)
+        let tcp_case = if server.prev.is_some() && rng.chance(1, if o.thorough { 4 } else { 6 }) {
+            let base: String = input.split(" client=").next().unwrap().to_string();
+            let out = match std::panic::catch_unwind(std::panic::AssertUnwindSafe(|| tcp_exchange(&server, &origin, &req_body))) {
+                Err(_) => "harness-panic".to_string(),
+                Ok(Err(e)) => format!("tcp-error:{}", e.replace(' ', "_")),
+                Ok(Ok(None)) => "panic".to_string(),
+                Ok(Ok(Some((status, etag, rbody)))) => {
+                    if status == 500 && rbody.is_empty() { "status500".to_string() } else {
+                        let etag_tok = match (&server.etag_override, &etag) { (Some(o), Some(e)) if o.as_bytes() == &e[..] => format!("override:{}", hexb(e)), (_, Some(_)) => "signed".into(), (_, None) => "none".into() };
+                        let parse = match parse_json_response(&rbody) { Ok(r) => crate::streams::resp::dump(&r), Err(_) => "err".into() };
+                        format!("ok body={} etag={} verify=- other=- lean=- parse={}", hexb(&rbody), etag_tok, parse)
+                    }
+                }
+            };
+            Some((format!("{} client=- via=tcp-keepalive", base), out, format!("tcp/{}", class)))
+        } else { None };
         sink.case(input, Some(class), move || output);
+        if let Some((i, out, c)) = tcp_case { sink.bump("gen:tcp-keepalive"); sink.case(i, Some(c), move || out); }
     }
     sink
 }
